@@ -552,8 +552,14 @@ class BuiltinMixin:
     def bi_replace(self, args, kw, st, cx, node):
         return [(st, VStr(F_replace_all(args[0].t, args[1].t, args[2].t)))]
 
+    def bi_is_space(self, args, kw, st, cx, node):
+        return [(st, VBool(is_ws_char(args[0].t)))]
+
+    def bi_str_repeat(self, args, kw, st, cx, node):
+        return [(st, self.str_repeat(args[0], coerce(args[1], Int), st))]
+
     def bi_in_re_ws(self, args, kw, st, cx, node):
-        return [(st, VBool(z3.InRe(args[0].t, ws_re())))]
+        return [(st, VBool(all_ws(args[0].t)))]
 
     def bi_str_from_int(self, args, kw, st, cx, node):
         return [(st, VStr(int_to_str(coerce(args[0], Int).t)))]
@@ -628,10 +634,14 @@ class BuiltinMixin:
             post = z3.FreshConst(z3.StringSort(), "rws")
             n = z3.Length(r)
             st.pc.append(b.t == z3.Concat(pre, r, post))
-            st.pc.append(z3.InRe(pre, ws_re()))
-            st.pc.append(z3.InRe(post, ws_re()))
+            st.pc.append(all_ws(pre))
+            st.pc.append(all_ws(post))
             st.pc.append(z3.Or(n == 0, z3.And(z3.Not(is_ws_char(z3.SubString(r, 0, 1))),
                                               z3.Not(is_ws_char(z3.SubString(r, n - 1, 1))))))
+            # derived facts (theorems of the four defining facts above; they spare the solver an induction on pre/post)
+            nb = z3.Length(b.t)
+            st.pc.append(z3.Implies(z3.And(nb > 0, z3.Not(is_ws_char(z3.SubString(b.t, 0, 1)))), pre == z3.StringVal("")))
+            st.pc.append(z3.Implies(z3.And(nb > 0, z3.Not(is_ws_char(z3.SubString(b.t, nb - 1, 1)))), post == z3.StringVal("")))
             return [(st, VStr(r))]
         if m == "lower":
             bc = b.conc()
